@@ -44,6 +44,7 @@ def _reset_state() -> None:
     lg = logging.getLogger("reuse")
     for h in list(lg.handlers):
         lg.removeHandler(h)
+    lg.setLevel(logging.NOTSET)
 
 
 def run(args: Sequence, cwd, *, env_extra: Optional[dict] = None) -> Result:
